@@ -621,13 +621,31 @@ func corpus(c *hx.Ctx, or *hx.Oracle) {
 	mk := func(ops []string, keys, vals []string, tamper string) rangeCase {
 		return rangeCase{Trie: trieCase{Hash: "ped", Height: 251, Ops: ops}, First: keys[0], Keys: keys, Values: vals, Tamper: tamper, Shape: "corpus"}
 	}
+	t159 := trieCase{Hash: "ped", Height: 251, Ops: []string{"1:a", "5:b", "9:c"}}
 	for _, rc := range []rangeCase{
 		mk([]string{"1:a", "5:b", "9:c"}, []string{"1", "9"}, []string{"a", "c"}, "inner-element-omitted"),
 		mk([]string{"1:a", k250 + ":b", k250p1 + ":c"}, []string{"1", k250}, []string{"a", "b"}, ""),
 		// two boundary paths with IDENTICAL sub-nodes (same path suffix, same value => same node hash)
 		mk([]string{"1:5", k250p1 + ":5"}, []string{"1", k250p1}, []string{"5", "5"}, ""),
+		// legacy: an honest empty range behind the last entry is refused (the key diverges inside the root edge)
+		{Trie: t159, First: k250, Shape: "corpus:empty-range-behind-last"},
+		// legacy: claims that are not bound to the proof
+		{Trie: t159, First: "1", Keys: []string{"5", "9"}, Values: []string{"b", "c"}, ProofKeys: []string{"1", "9"}, Tamper: "first-element-omitted", Shape: "corpus"},
+		{Trie: t159, First: "5", Keys: []string{"1", "5", "9"}, Values: []string{"a", "b", "c"}, ProofKeys: []string{"5", "9"}, Tamper: "first-moved-past-first-element", Shape: "corpus"},
+		{Trie: t159, First: "0", Keys: []string{"1", "5", "9"}, Values: []string{"ff", "b", "c"}, Tamper: "value-changed", Shape: "corpus"},
+		{Trie: trieCase{Hash: "ped", Height: 251, Ops: []string{"1:a", k250 + ":b", k250p1 + ":c"}}, First: "2", Tamper: "empty-claim-but-entries-follow", Shape: "corpus"},
+		// both: the single-element branch recomputes no hash (value altered in the claim and in the proof node, node still under its honest hash)
+		{Trie: t159, First: "5", Keys: []string{"5"}, Values: []string{"ff"}, Tamper: "single-element-value-forged-also-in-proof-node", Muts: []string{"child:3:c:ff"}, Shape: "corpus"},
+		// trie2: the empty-range branch recomputes no hash (root object replaced by a diverging edge)
+		{Trie: t159, First: "3", Tamper: "empty-claim-root-node-replaced", Muts: []string{"setedge:0:" + strings.Repeat("0", 251) + ":1"}, Shape: "corpus"},
+		// a node also stored under the hash of its child: the linked structure is cyclic
+		{Trie: trieCase{Hash: "ped", Height: 251, Ops: []string{"1:a", "5:b", "9:c"}}, First: "1", Keys: []string{"1", "5", "9"},
+			Values: []string{"a", "b", "c"}, Tamper: "proof-copy", Muts: []string{"copy:1:2"}, Shape: "corpus"},
 	} {
 		c.Hist["corpus:range"]++
+		if cycleProne(rc) {
+			cyclicRuns-- // the corpus case does not count against the per-run limit
+		}
 		runRange(c, or, rc, false)
 	}
 }
